@@ -259,6 +259,6 @@ theorem Tidy.ofB {r : Nat} {h : Heap} (t : TidyB r h) : Tidy r h :=
 
 theorem Separate.single {h : Heap} {x : Id} (hl : x.reg < h.length) (c : Closed x.reg h) (t : TidyB x.reg h) :
     Separate h [x] :=
-  ⟨List.pairwise_singleton .., fun y hy => by simp only [List.mem_singleton] at hy; subst hy; exact ⟨hl, c, t.ofB⟩⟩
+  ⟨List.pairwise_singleton .., fun y hy => by simp only [List.mem_singleton] at hy; subst hy; exact ⟨hl, c, Tidy.ofB t⟩⟩
 
 end OFCore.Heap
